@@ -89,6 +89,10 @@ def header_cases(seed: int, limit: int | None):
         cases.append((f"header:{k}", f"{pre}#{a}{word}{b}{colon}{c}{name}{trail}\nFonctionnalité: f\n  Scénario: s\n    Soit x\n", "en"))
     if limit is not None and limit < len(cases):
         cases = random.Random(seed).sample(cases, limit)
+    # every kind of blank in every gap of the header (the pattern's \\s is Unicode-aware)
+    for k, ws in enumerate(["\u00a0", "\u3000", "\u2003", "\x0b", "\x0c", "\x1f", "\u2028", "\u0085", " \t\u00a0"]):
+        for j, (g1, g2, g3, g4, g5) in enumerate([(ws, "", "", " ", ""), ("", ws, "", " ", ""), ("", "", ws, " ", ""), ("", "", "", ws, ""), ("", "", "", " ", ws), (ws, ws, ws, ws, ws)]):
+            cases.append((f"header-blank:{k}:{j}", f"{g1}#{g2}language{g3}:{g4}fr{g5}\nFonctionnalité: f\n  Scénario: s\n    Soit x\n", "en"))
     # a header that is not at the top: after a comment / blank (still a header), after a tag or the feature line (a comment)
     for k, pre in enumerate(["# c\n", "\n", "@t\n", "Feature: f\n", "# language: en\n", "# language: xx\n"]):
         cases.append((f"header-pos:{k}", pre + "# language: fr\nFonctionnalité: f\n", "en"))
